@@ -2,10 +2,46 @@
 from harness.props import kernels as K
 
 
+def _contract(c):
+    """well-typed calls whose arguments do not fit together: each must be REJECTED (an exception) or harmless, never an
+    access outside the buffers (which AddressSanitizer would report): short doc_lens for bm25_score, short counts for
+    sort_merge_counts, an as_dense index at / beyond the size, a slop phrase of more than 64 terms, a span search over
+    fewer than two terms, reversed / broadcast / record-field views for the intersect kernels"""
+    import numpy as np
+    from searcharray import SearchArray
+    from searcharray.bm25 import bm25_score
+    from searcharray.roaringish.merge import sort_merge_counts
+    from searcharray.roaringish.roaringish_ops import as_dense
+    from searcharray.roaringish.intersect import intersect, adjacent, intersect_with_adjacents
+    from searcharray.roaringish.spans import span_search
+    n = c["n"]
+    u = lambda x: np.array(x, dtype=np.uint64)       # noqa
+    calls = [
+        lambda: bm25_score(np.ones(n + 3, np.float32), np.ones(n, np.float32)[:max(1, n // 2)], 5.0, 1.0, 1.2, 0.75),
+        lambda: sort_merge_counts(np.arange(n + 2, dtype=np.uint64), np.ones(1, np.float32), u([]), np.array([], dtype=np.float32)),
+        lambda: as_dense(u([0, n]), np.array([1, 2], dtype=np.float32), n),
+        lambda: as_dense(u([1 << 40]), np.array([1], dtype=np.float32), n),
+        lambda: SearchArray.index([" ".join(f"t{i}" for i in range(64 + n)), "x"]).termfreqs([f"t{i}" for i in range(64 + n)], slop=1),
+        lambda: span_search(u(list(range(n))), u([0]), {}, 1, 0xFFFFFFF000000000, 0xFFFFFFFFFFFC0000, 28, 18),
+        lambda: intersect(np.arange(2 * n + 2, 0, -1, dtype=np.uint64)[::-1], np.arange(1, n + 2, dtype=np.uint64)),
+        lambda: adjacent(np.arange(2 * n + 2, 0, -1, dtype=np.uint64)[::-1], np.arange(2, n + 3, dtype=np.uint64)),
+        lambda: intersect_with_adjacents(np.zeros(n + 1, [("a", "<u8"), ("b", "<u4")])["a"], np.arange(n + 1, dtype=np.uint64)),
+        lambda: intersect(np.broadcast_to(u([5]), (n + 1,)), u([5, 6])),
+    ]
+    for f in calls:
+        try:
+            f()
+        except (ValueError, IndexError, OverflowError, TypeError):
+            pass
+    return 0
+
+
 def _workload(c):
     import random
     import numpy as np
     from searcharray import SearchArray
+    if c["w"] == "contract":
+        return _contract(c)
     rng = random.Random(c["seed"])
     if c["w"] == "slop":
         # long uniformly random documents over few terms: many candidate spans (span table capacity)
